@@ -9,10 +9,11 @@ from harness.render import render_prog, isa_for, parse_listing, err_class
 
 ALL_INVARIANTS = ['ReaderIsFold', 'Contiguity', 'ReservedEqualsEmitted', 'AlignIsLeastMultiple', 'LabelIsNextAddress',
                   'NoSilentOverlap', 'OverlapRejectionJustified', 'InsideZoneAndGlobal', 'WindowFaithful',
-                  'MemIsUnmutedBytes', 'ActiveEqualsSelected', 'ResolvesOnlyToVisible', 'NoDuplicateKeys']
+                  'MemIsUnmutedBytes', 'ActiveEqualsSelected', 'ResolvesOnlyToVisible', 'NoDuplicateKeys',
+                  'IncludeIsPaste']
 
 
-def cfg_text(params: dict, invariants=None, emit=True, alphabet='MCAlphabet') -> str:
+def cfg_text(params: dict, invariants=None, emit=True, alphabet='MCAlphabet', emit_inv='Emit') -> str:
     """params: max_len, addr_bits, origin, page_size, win_start, win_end (None = no end), fill,
        pre_zones / pre_data / init_defs are named operators of the MC module (strings)."""
     inv = list(invariants if invariants is not None else ALL_INVARIANTS)
@@ -31,7 +32,7 @@ def cfg_text(params: dict, invariants=None, emit=True, alphabet='MCAlphabet') ->
     for i in inv:
         lines.append(f'INVARIANT {i}')
     if emit:
-        lines.append('INVARIANT Emit')
+        lines.append(f'INVARIANT {params.get("emit_inv", emit_inv)}')
     return '\n'.join(lines) + '\n'
 
 
